@@ -116,20 +116,20 @@ Qed.
    hyphen-ended chunks and a remainder ---- *)
 Definition optw (w : gstr) : list gstr := match w with [] => [] | _ => [w] end.
 
-Inductive cov : list gstr -> list gstr -> Prop :=
-| cov_nil : cov [] []
-| cov_word w ps ws : cov ps ws -> cov (w :: ps) (w :: ws)
-| cov_chunk o w' ps ws : w' <> [] -> cov ps (w' :: ws) -> cov ((o ++ [HYPHEN]) :: ps) ((o ++ w') :: ws).
+Inductive cov (W : Z) : list gstr -> list gstr -> Prop :=
+| cov_nil : cov W [] []
+| cov_word w ps ws : cov W ps ws -> cov W (w :: ps) (w :: ws)
+| cov_chunk o w' ps ws : w' <> [] -> W < glen (o ++ w') -> cov W ps (w' :: ws) -> cov W ((o ++ [HYPHEN]) :: ps) ((o ++ w') :: ws).
 
-Lemma cov_split_last ps : forall ws o w', w' <> [] -> cov (ps ++ [o ++ w']) ws -> cov (ps ++ [o ++ [HYPHEN]] ++ [w']) ws.
+Lemma cov_split_last W ps : forall ws o w', w' <> [] -> W < glen (o ++ w') -> cov W (ps ++ [o ++ w']) ws -> cov W (ps ++ [o ++ [HYPHEN]] ++ [w']) ws.
 Proof.
-  induction ps as [|p ps IH]; intros ws o w' Hne Hc.
-  - cbn [app] in *. inversion Hc as [|x ps0 ws0 Hc0|o2 w2 ps0 ws0 Hne2 Hc0]; subst.
-    + inversion Hc0; subst. apply cov_chunk; [exact Hne|]. apply cov_word. apply cov_nil.
+  induction ps as [|p ps IH]; intros ws o w' Hne Hlt Hc.
+  - cbn [app] in *. inversion Hc as [|x ps0 ws0 Hc0|o2 w2 ps0 ws0 Hne2 Hlt2 Hc0]; subst.
+    + inversion Hc0; subst. apply cov_chunk; [exact Hne|exact Hlt|]. apply cov_word. apply cov_nil.
     + inversion Hc0.
-  - cbn [app] in *. inversion Hc as [|x ps0 ws0 Hc0|o2 w2 ps0 ws0 Hne2 Hc0]; subst.
+  - cbn [app] in *. inversion Hc as [|x ps0 ws0 Hc0|o2 w2 ps0 ws0 Hne2 Hlt2 Hc0]; subst.
     + apply cov_word. apply IH; assumption.
-    + apply cov_chunk; [exact Hne2|]. apply IH; assumption.
+    + apply cov_chunk; [exact Hne2|exact Hlt2|]. apply IH; assumption.
 Qed.
 
 Lemma gsub_split w k : 0 <= k <= glen w -> gsub w 0 k ++ gsub w k (glen w) = w.
@@ -165,9 +165,9 @@ Lemma append_word_struct W fuel : 2 <= W -> forall ws pss w cps r,
   (w = [] \/ pc_ok w) -> Forall (lp_ok W) pss -> chain W pss -> Forall pc_ok cps ->
   (cps <> [] -> glen (ln cps) < W /\ link W pss (glen (hd [] cps))) ->
   (cps = [] -> link W pss (Z.min (glen w) W)) ->
-  cov (concat pss ++ cps ++ optw w) ws ->
+  cov W (concat pss ++ cps ++ optw w) ws ->
   append_word fuel (map ln pss) w (ln cps) W = Ok r ->
-  exists pss' cps', r = (map ln pss', ln cps') /\ St W pss' cps' /\ cov (concat pss' ++ cps') ws.
+  exists pss' cps', r = (map ln pss', ln cps') /\ St W pss' cps' /\ cov W (concat pss' ++ cps') ws.
 Proof.
   intro HW. induction fuel as [|fuel IH]; intros ws pss w cps r Hw Hpss Hch Hcps Hne Hnil Hcov Hr; [discriminate|].
   cbn [append_word] in Hr. destruct (0 <? glen w) eqn:E0.
@@ -196,7 +196,7 @@ Proof.
       assert (A3 : chain W (pss ++ [[w]])).
       { apply chain_snoc; [exact Hch|]. cbn [hd]. replace (Z.min (glen w) W) with (glen w) in Hnil by glia. exact Hnil. }
       assert (A6 : @nil gstr = [] -> link W (pss ++ [[w]]) (Z.min (glen []) W)) by (intros _; apply link_snoc; left; glia).
-      assert (A7 : cov (concat (pss ++ [[w]]) ++ [] ++ optw []) ws) by (rewrite concat_app; cbn [concat optw app]; rewrite !app_nil_r; exact Hcov).
+      assert (A7 : cov W (concat (pss ++ [[w]]) ++ [] ++ optw []) ws) by (rewrite concat_app; cbn [concat optw app]; rewrite !app_nil_r; exact Hcov).
       exact (IH ws (pss ++ [[w]]) [] [] r (or_introl eq_refl) A2 A3 (Forall_nil _) (Hnone _) A6 A7 Hr).
     + destruct (W <? glen w) eqn:Eb.
       * (* longer than the width: a chunk and a hyphen *)
@@ -212,9 +212,9 @@ Proof.
         { apply chain_snoc; [exact Hch|]. cbn [hd]. rewrite C2. replace (Z.min (glen w) W) with W in Hnil by glia. exact Hnil. }
         assert (A6 : @nil gstr = [] -> link W (pss ++ [[chunk]]) (Z.min (glen (gsub w (W - 1) (glen w))) W)).
         { intros _. apply link_snoc. left. cbn [ln join]. exact C2. }
-        assert (A7 : cov (concat (pss ++ [[chunk]]) ++ [] ++ optw (gsub w (W - 1) (glen w))) ws).
+        assert (A7 : cov W (concat (pss ++ [[chunk]]) ++ [] ++ optw (gsub w (W - 1) (glen w))) ws).
         { destruct C3 as (C3ne & _). assert (Eo : optw (gsub w (W - 1) (glen w)) = [gsub w (W - 1) (glen w)]) by (destruct (gsub w (W - 1) (glen w)); [congruence|reflexivity]).
-          rewrite Eo, concat_app. cbn [concat app]. rewrite <- app_assoc. unfold chunk. apply cov_split_last; [exact C3ne|].
+          rewrite Eo, concat_app. cbn [concat app]. rewrite <- app_assoc. unfold chunk. apply cov_split_last; [exact C3ne|rewrite (gsub_split w (W - 1)) by glia; glia|].
           rewrite (gsub_split w (W - 1)) by glia. exact Hcov. }
         exact (IH ws (pss ++ [[chunk]]) (gsub w (W - 1) (glen w)) [] r (or_intror C3) A2 A3 (Forall_nil _) (Hnone _) A6 A7 Hr).
       * (* fits *)
@@ -222,7 +222,7 @@ Proof.
         assert (A5 : [w] <> [] -> glen (ln [w]) < W /\ link W pss (glen (hd [] [w]))).
         { intros _. split; [glia|]. cbn [hd]. replace (Z.min (glen w) W) with (glen w) in Hnil by glia. exact Hnil. }
         assert (A6 : [w] = [] -> link W pss (Z.min (glen []) W)) by discriminate.
-        assert (A7 : cov (concat pss ++ [w] ++ optw []) ws) by (cbn [optw]; rewrite app_nil_r; exact Hcov).
+        assert (A7 : cov W (concat pss ++ [w] ++ optw []) ws) by (cbn [optw]; rewrite app_nil_r; exact Hcov).
         exact (IH ws pss [] [w] r (or_introl eq_refl) Hpss Hch Fadd A5 A6 A7 Hr).
   - (* the current line holds pieces *)
     clear Hnil. destruct (Hne ltac:(discriminate)) as [Hlt Hlk]. cbv iota in Hr, Eadd, Gadd. cbn [hd] in Hlk.
@@ -236,7 +236,7 @@ Proof.
       { apply Forall_app. split; [exact Hpss|]. constructor; [|constructor]. split; [discriminate|]. split; [exact Fadd|glia]. }
       assert (A3 : chain W (pss ++ [(p :: cps') ++ [w]])) by (apply chain_snoc; [exact Hch|cbn [hd app]; exact Hlk]).
       assert (A6 : @nil gstr = [] -> link W (pss ++ [(p :: cps') ++ [w]]) (Z.min (glen []) W)) by (intros _; apply link_snoc; left; glia).
-      assert (A7 : cov (concat (pss ++ [(p :: cps') ++ [w]]) ++ [] ++ optw []) ws) by (rewrite concat_app; cbn [concat optw]; rewrite !app_nil_r; exact Hcov).
+      assert (A7 : cov W (concat (pss ++ [(p :: cps') ++ [w]]) ++ [] ++ optw []) ws) by (rewrite concat_app; cbn [concat optw]; rewrite !app_nil_r; exact Hcov).
       exact (IH ws (pss ++ [(p :: cps') ++ [w]]) [] [] r (or_introl eq_refl) A2 A3 (Forall_nil _) (Hnone _) A6 A7 Hr).
     + destruct (W <? ll + (glen w + 1)) eqn:Eb.
       * (* emit the line, retry the word on an empty one *)
@@ -247,13 +247,13 @@ Proof.
         assert (A3 : chain W (pss ++ [p :: cps'])) by (apply chain_snoc; [exact Hch|exact Hlk]).
         assert (A6 : @nil gstr = [] -> link W (pss ++ [p :: cps']) (Z.min (glen w) W)).
         { intros _. apply link_snoc. right. fold ll. glia. }
-        assert (A7 : cov (concat (pss ++ [p :: cps']) ++ [] ++ optw w) ws) by (rewrite Hoptw, concat_app; cbn [concat]; rewrite app_nil_r, <- app_assoc; exact Hcov).
+        assert (A7 : cov W (concat (pss ++ [p :: cps']) ++ [] ++ optw w) ws) by (rewrite Hoptw, concat_app; cbn [concat]; rewrite app_nil_r, <- app_assoc; exact Hcov).
         exact (IH ws (pss ++ [p :: cps']) w [] r (or_intror Hwok) A2 A3 (Forall_nil _) (Hnone _) A6 A7 Hr).
       * rewrite Eadd in Hr.
         assert (A5 : (p :: cps') ++ [w] <> [] -> glen (ln ((p :: cps') ++ [w])) < W /\ link W pss (glen (hd [] ((p :: cps') ++ [w])))).
         { intros _. split; [glia|]. cbn [hd app]. exact Hlk. }
         assert (A6 : (p :: cps') ++ [w] = [] -> link W pss (Z.min (glen []) W)) by discriminate.
-        assert (A7 : cov (concat pss ++ ((p :: cps') ++ [w]) ++ optw []) ws) by (cbn [optw]; rewrite app_nil_r; exact Hcov).
+        assert (A7 : cov W (concat pss ++ ((p :: cps') ++ [w]) ++ optw []) ws) by (cbn [optw]; rewrite app_nil_r; exact Hcov).
         exact (IH ws pss [] ((p :: cps') ++ [w]) r (or_introl eq_refl) Hpss Hch Fadd A5 A6 A7 Hr).
 Qed.
 
@@ -273,10 +273,10 @@ Qed.
 Lemma St_link W pss cps w : 2 <= W -> St W pss cps -> cps = [] -> link W pss (Z.min (glen w) W).
 Proof. intros HW (_ & _ & _ & _ & Hn) Hc. apply (link_mono W pss 0); [pose proof (glen_nonneg w); lia|apply Hn, Hc]. Qed.
 
-Lemma cov_snoc ps ws w : cov ps ws -> cov (ps ++ [w]) (ws ++ [w]).
+Lemma cov_snoc W ps ws w : cov W ps ws -> cov W (ps ++ [w]) (ws ++ [w]).
 Proof. induction 1; cbn [app]; [apply cov_word, cov_nil|apply cov_word; assumption|apply cov_chunk; assumption]. Qed.
 
-Lemma cov_optw ps ws w : cov ps ws -> cov (ps ++ optw w) (ws ++ optw w).
+Lemma cov_optw W ps ws w : cov W ps ws -> cov W (ps ++ optw w) (ws ++ optw w).
 Proof. intro Hc. destruct w; cbn [optw]; [rewrite !app_nil_r; exact Hc|apply cov_snoc, Hc]. Qed.
 
 (* the words of a cluster list: maximal runs of clusters that are not a space *)
@@ -289,10 +289,10 @@ Fixpoint wds (cl : list (list Z)) (cur : gstr) : list gstr :=
 Lemma wrap_loop_struct ct W : 2 <= W -> all_safe ct ->
   forall rest wordcl pre pss cps done r,
   clusters ct = pre ++ wordcl ++ rest -> Forall (fun c => first_rune c <> SP) wordcl -> St W pss cps ->
-  cov (concat pss ++ cps) done ->
+  cov W (concat pss ++ cps) done ->
   wrap_loop rest (map ln pss) (concat wordcl) (ln cps) W = Ok r ->
   exists pss' w' cps' done', r = (map ln pss', w', ln cps') /\ St W pss' cps' /\ (w' = [] \/ pc_ok w') /\
-    cov (concat pss' ++ cps') done' /\ done' ++ optw w' = done ++ wds rest (concat wordcl).
+    cov W (concat pss' ++ cps') done' /\ done' ++ optw w' = done ++ wds rest (concat wordcl).
 Proof.
   intros HW Hct. induction rest as [|ch rest IH]; intros wordcl pre pss cps done r E Hn Hst Hcov Hr.
   - cbn in Hr. injection Hr as <-. exists pss, (concat wordcl), cps, done. split; [reflexivity|]. split; [exact Hst|].
@@ -301,7 +301,7 @@ Proof.
     + unfold append_word_to_wrapped_line in Hr. replace (W <? 2) with false in Hr by lia.
       destruct (append_word _ (map ln pss) (concat wordcl) (ln cps) W) as [[l2 c2]| |] eqn:Ea; cbn [bind] in Hr; try discriminate.
       pose proof Hst as (S1 & S2 & S3 & S4 & S5).
-      assert (Hcov' : cov (concat pss ++ cps ++ optw (concat wordcl)) (done ++ optw (concat wordcl))) by (rewrite app_assoc; apply cov_optw, Hcov).
+      assert (Hcov' : cov W (concat pss ++ cps ++ optw (concat wordcl)) (done ++ optw (concat wordcl))) by (rewrite app_assoc; apply cov_optw, Hcov).
       destruct (append_word_struct W _ HW (done ++ optw (concat wordcl)) pss (concat wordcl) cps (l2, c2) (word_pc ct pre wordcl (ch :: rest) Hct E Hn) S1 S2 S3 S4
                   (St_link W pss cps (concat wordcl) HW Hst) Hcov' Ea) as (pss' & cps' & Er & Hst' & Hc').
       injection Er as -> ->. change (@nil Z) with (concat (@nil (list Z))) in Hr.
@@ -319,7 +319,7 @@ Qed.
 Theorem wrap_structure text w sep ct b : collapse_space text sep = Ok ct -> all_safe ct -> ct <> [] ->
   wrap text w sep = Ok b ->
   exists pss, b_lines b = map ln pss /\ Forall (lp_ok (Z.max w 2)) pss /\ chain (Z.max w 2) pss /\
-              cov (concat pss) (wds (clusters ct) []).
+              cov (Z.max w 2) (concat pss) (wds (clusters ct) []).
 Proof.
   intros Hc Hs Hne Hw. unfold wrap in Hw. rewrite Hc in Hw. cbn [bind] in Hw.
   set (W := if w <? 2 then 2 else w) in *. assert (HW : 2 <= W) by (unfold W; destruct (w <? 2) eqn:E; lia).
@@ -329,11 +329,11 @@ Proof.
   assert (Hst0 : St W [] []).
   { unfold St. split; [apply Forall_nil|]. split; [exact I|]. split; [apply Forall_nil|]. split; [intro Hx; exfalso; apply Hx; reflexivity|intros _; exact I]. }
   change (@nil gstr) with (map ln []) in El at 1. change (@nil Z) with (concat (@nil (list Z))) in El at 1. change (@nil Z) with (ln []) in El.
-  destruct (wrap_loop_struct ct W HW Hs (clusters ct) [] [] [] [] [] _ eq_refl ltac:(constructor) Hst0 cov_nil El)
+  destruct (wrap_loop_struct ct W HW Hs (clusters ct) [] [] [] [] [] _ eq_refl ltac:(constructor) Hst0 (cov_nil W) El)
     as (pss1 & w1 & cps1 & done1 & Er & Hst1 & Hw1 & Hc1 & Hd1).
   injection Er as -> -> ->. cbn [app concat] in Hd1.
-  assert (Hfin : forall pss cps l c ws, St W pss cps -> cov (concat pss ++ cps) ws -> (l, c) = (map ln pss, ln cps) ->
-            exists pss', (if gis_empty c then l else l ++ [c]) = map ln pss' /\ Forall (lp_ok W) pss' /\ chain W pss' /\ cov (concat pss') ws).
+  assert (Hfin : forall pss cps l c ws, St W pss cps -> cov W (concat pss ++ cps) ws -> (l, c) = (map ln pss, ln cps) ->
+            exists pss', (if gis_empty c then l else l ++ [c]) = map ln pss' /\ Forall (lp_ok W) pss' /\ chain W pss' /\ cov W (concat pss') ws).
   { intros pss cps l c ws (S1 & S2 & S3 & S4 & S5) Hcv Elc. injection Elc as -> ->. destruct cps as [|p cps'].
     - exists pss. cbn. rewrite app_nil_r in Hcv. repeat split; assumption.
     - destruct (S4 ltac:(discriminate)) as [Hlt Hlk]. pose proof (ln_ne (p :: cps') ltac:(discriminate) S3) as Hlne.
@@ -348,13 +348,13 @@ Proof.
   - unfold append_word_to_wrapped_line in Hw. replace (W <? 2) with false in Hw by lia.
     destruct (append_word _ (map ln pss1) w1 (ln cps1) W) as [[l2 c2]| |] eqn:Ea; cbn [bind] in Hw; try discriminate.
     pose proof Hst1 as (S1 & S2 & S3 & S4 & S5).
-    assert (Hcov' : cov (concat pss1 ++ cps1 ++ optw w1) (wds (clusters ct) [])) by (rewrite <- Hd1, app_assoc; apply cov_optw, Hc1).
+    assert (Hcov' : cov W (concat pss1 ++ cps1 ++ optw w1) (wds (clusters ct) [])) by (rewrite <- Hd1, app_assoc; apply cov_optw, Hc1).
     destruct (append_word_struct W _ HW _ pss1 w1 cps1 (l2, c2) Hw1 S1 S2 S3 S4 (St_link W pss1 cps1 w1 HW Hst1) Hcov' Ea) as (pss2 & cps2 & Er & Hst2 & Hc2).
     injection Hw as <-. cbn [b_lines]. apply (Hfin pss2 cps2 _ _ _ Hst2 Hc2 Er).
 Qed.
 
 Corollary wrap_words text w sep ct b : collapse_space text sep = Ok ct -> all_safe ct -> ct <> [] -> wrap text w sep = Ok b ->
-  exists pss, b_lines b = map ln pss /\ cov (concat pss) (wds (clusters ct) []).
+  exists pss, b_lines b = map ln pss /\ cov (Z.max w 2) (concat pss) (wds (clusters ct) []).
 Proof.
   intros Hc Hs Hne Hw. destruct (wrap_structure text w sep ct b Hc Hs Hne Hw) as (pss & H2 & _ & _ & H4).
   exact (ex_intro _ pss (conj H2 H4)).
